@@ -709,7 +709,7 @@ def run(ck):
     if ck.replay_case:
         return replay(ck, want)
     model_check(ck)
-    stats = campaign(ck, want, plan_trace=True, sizes=ck.pick((20, 56, 100000), (1200, 1400, 1800)))
+    stats = campaign(ck, want, plan_trace=True, sizes=ck.pick((16, 44, 100000), (1000, 1400, 1800)))
     ck.extra["runs"] = stats
     ck.extra["plan_state_calls_outside_C17_domain"] = stats["outside"]
     if stats["ok"] == 0 and not ck.violations:
